@@ -36,68 +36,82 @@ StrValue(x) == \* sid of the string value of an `Expr(Constant(str))` statement,
        ELSE LET c == FieldSeq(v[1], "value") IN
             IF Len(c) = 1 /\ Kind(c[1]) = "#" /\ Val(c[1]) # "" /\ SubSeq(Val(c[1]), 1, 1) = "s" THEN c[1] ELSE 0
 
-Exempt(pkind, field, j, child, mode) ==
+Exempt(pkind, field, j, child, m) ==
   /\ StrValue(child) # 0
-  /\ \/ mode = "all" /\ field \in BlockFields
-     \/ mode = "strict" /\ pkind \in DocstrKinds /\ field = "body" /\ j = 1
+  /\ \/ m.mode = "all" /\ field \in BlockFields
+     \/ m.mode = "strict" /\ pkind \in DocstrKinds /\ field = "body" /\ j = 1
 
 IsBlank(c) == c = 32 \/ c = 9
 RECURSIVE LeadBlanks(_)
 LeadBlanks(line) == IF line # <<>> /\ IsBlank(Head(line)) THEN 1 + LeadBlanks(Tail(line)) ELSE 0
 
-(* re-indentation changes nothing but the leading blanks of a continuation line (pfst dedents by the block indent *)
-(* on extraction and indents by the target's on insertion; with ragged or tab/space-mixed lines the two are not   *)
-(* exact inverses, which the documentation calls "inconsistent dedentation")                                      *)
+(* Documented re-indentation of one continuation line, m = [mode, d, d2, rt, lib]: d = width of the block indent *)
+(* of the extracted element in its tree, d2 = width of the block indent at the place it is put back to (differs  *)
+(* from d only when the block had to be re-created, e.g. an emptied body).  Extraction (copy / cut / own_src)    *)
+(* removes min(d, leading blanks) characters; putting the piece back (rt) adds d2 again.  Nothing but the        *)
+(* leading blanks may differ, and only in one of these ways.  lib = TRUE drops the second condition (used only   *)
+(* to *classify* a failure as "docstring indentation only").                                                     *)
 RECURSIVE SkipBlanks(_)
 SkipBlanks(line) == IF line # <<>> /\ IsBlank(Head(line)) THEN SkipBlanks(Tail(line)) ELSE line
-ReindentOf(orig, new) == SkipBlanks(orig) = SkipBlanks(new)
+Min2(a, b) == IF a < b THEN a ELSE b
+Max2(a, b) == IF a > b THEN a ELSE b
+ReindentOf(orig, new, m) ==
+  LET lo == LeadBlanks(orig)  ln == LeadBlanks(new) IN
+  /\ SkipBlanks(orig) = SkipBlanks(new)
+  /\ \/ ln = lo
+     \/ ln = lo - Min2(m.d, lo)
+     \/ m.rt /\ ln = lo - Min2(m.d, lo) + m.d2
+     \/ m.lib
 
 DocLines(v) == IF v \in 1..Len(DMap) /\ DMap[v] \in 1..Len(TTab) THEN TTab[DMap[v]] ELSE <<>>
 
-StrEqModIndent(vx, vy) ==
+StrEqModIndent(vx, vy, m) ==
   \/ vx = vy
   \/ LET lx == DocLines(vx)  ly == DocLines(vy) IN
      /\ lx # <<>> /\ Len(lx) = Len(ly)
      /\ lx[1] = ly[1]
-     /\ \A i \in 2..Len(lx) : ReindentOf(lx[i], ly[i])
+     /\ \A i \in 2..Len(lx) : ReindentOf(lx[i], ly[i], m)
 
-DocEq(x, y) == \* two Expr(Constant(str)) statements, equal up to re-indentation of the string
+DocEq(x, y, m) == \* two Expr(Constant(str)) statements, equal up to re-indentation of the string
   /\ StrValue(x) # 0 /\ StrValue(y) # 0
   /\ FieldSeq(FieldSeq(x, "value")[1], "kind") = FieldSeq(FieldSeq(y, "value")[1], "kind")
-  /\ StrEqModIndent(StrValue(x), StrValue(y))
+  /\ StrEqModIndent(StrValue(x), StrValue(y), m)
 
 RECURSIVE EqMod(_, _, _)
-EqMod(x, y, mode) ==
+EqMod(x, y, m) ==
   IF x = y THEN TRUE
-  ELSE IF x = 0 \/ y = 0 \/ mode = "none" THEN FALSE
+  ELSE IF x = 0 \/ y = 0 \/ m.mode = "none" THEN FALSE
   ELSE /\ Kind(x) = Kind(y) /\ Val(x) = Val(y) /\ Len(Fields(x)) = Len(Fields(y))
        /\ \A i \in 1..Len(Fields(x)) :
             LET fx == Fields(x)[i]  fy == Fields(y)[i] IN
             /\ fx.n = fy.n /\ Len(fx.c) = Len(fy.c)
             /\ \A j \in 1..Len(fx.c) :
-                 IF Exempt(Kind(x), fx.n, j, fx.c[j], mode) THEN DocEq(fx.c[j], fy.c[j])
-                 ELSE EqMod(fx.c[j], fy.c[j], mode)
+                 IF Exempt(Kind(x), fx.n, j, fx.c[j], m) THEN DocEq(fx.c[j], fy.c[j], m)
+                 ELSE EqMod(fx.c[j], fy.c[j], m)
+
+DM(e, rt) == [mode |-> e.opts.docstr, d |-> e.indent, d2 |-> e.indent, rt |-> rt, lib |-> FALSE]
+RT(e, lib) == [mode |-> "all", d |-> e.indent, d2 |-> e.indent2, rt |-> TRUE, lib |-> lib]
 
 (* element x found at position j of `field` of a node of kind pkind, compared with its extracted counterpart y *)
-EqElem(pkind, field, j, x, y, mode) ==
-  IF x # y /\ Exempt(pkind, IF field = "_body" THEN "body" ELSE field, j, x, mode) THEN DocEq(x, y) ELSE EqMod(x, y, mode)
+EqElem(pkind, field, j, x, y, m) ==
+  IF x # y /\ Exempt(pkind, IF field = "_body" THEN "body" ELSE field, j, x, m) THEN DocEq(x, y, m) ELSE EqMod(x, y, m)
 
 (* the node at `path` of tree t compared with y: the node may itself be a docstring statement, or the string       *)
 (* constant of one (its continuation lines are then re-indented like the statement's)                             *)
-ConstEq(x, y) == /\ Kind(x) = "Constant" /\ Kind(y) = "Constant" /\ FieldSeq(x, "kind") = FieldSeq(y, "kind")
+ConstEq(x, y, m) == /\ Kind(x) = "Constant" /\ Kind(y) = "Constant" /\ FieldSeq(x, "kind") = FieldSeq(y, "kind")
                  /\ Len(FieldSeq(x, "value")) = 1 /\ Len(FieldSeq(y, "value")) = 1
-                 /\ StrEqModIndent(FieldSeq(x, "value")[1], FieldSeq(y, "value")[1])
-EqAt(t, path, y, mode) ==
+                 /\ StrEqModIndent(FieldSeq(x, "value")[1], FieldSeq(y, "value")[1], m)
+EqAt(t, path, y, m) ==
   LET x == NodeAt(t, path) IN
-  IF x = y \/ path = <<>> THEN EqMod(x, y, mode)
+  IF x = y \/ path = <<>> THEN EqMod(x, y, m)
   ELSE LET p  == LastOf(path)
            pk == Kind(NodeAt(t, Front(path)))
-       IN IF Exempt(pk, p.n, p.i, x, mode) THEN DocEq(x, y)
+       IN IF Exempt(pk, p.n, p.i, x, m) THEN DocEq(x, y, m)
           ELSE IF pk = "Expr" /\ p.n = "value" /\ Len(path) >= 2
                   /\ Exempt(Kind(NodeAt(t, Front(Front(path)))), LastOf(Front(path)).n, LastOf(Front(path)).i,
-                            NodeAt(t, Front(path)), mode)
-               THEN ConstEq(x, y)
-          ELSE EqMod(x, y, mode)
+                            NodeAt(t, Front(path)), m)
+               THEN ConstEq(x, y, m)
+          ELSE EqMod(x, y, m)
 
 (* ------------------------------------------------------------------------ *)
 (* Element sequences of list-like fields (elements are tuples of sids).       *)
@@ -200,7 +214,7 @@ ElemsEq(s, e, r) ==
           /\ Len(got[i]) = Len(sub[i])
           /\ \A c \in 1..Len(sub[i]) :
                IF Len(sub[i]) = 3 /\ c = 1 THEN sub[i][c] = got[i][c]      \* category of an argument
-               ELSE EqElem(ParKind(s, e), e.field, lo + e.start + i, sub[i][c], got[i][c], e.opts.docstr)
+               ELSE EqElem(ParKind(s, e), e.field, lo + e.start + i, sub[i][c], got[i][c], DM(e, FALSE))
 
 OpsEq(s, e, r) == \* the connectives of a BoolOp / Compare slice are the original ones
   LET x == NodeAt(s.liveS, e.path) IN
@@ -209,13 +223,13 @@ OpsEq(s, e, r) == \* the connectives of a BoolOp / Compare slice are the origina
     [] OTHER -> TRUE
 
 FaithfulSlice(s, e, r) ==
-  IF NormUnwrapped(s, e) THEN Sub(s, e) # <<>> /\ EqMod(Sub(s, e)[1][1], r.liveS, e.opts.docstr)
+  IF NormUnwrapped(s, e) THEN Sub(s, e) # <<>> /\ EqMod(Sub(s, e)[1][1], r.liveS, DM(e, FALSE))
   ELSE IF NormEmptySet(s, e) THEN r.kind \in {"Set", "Call"}
   ELSE /\ r.kind = SliceKind(ParKind(s, e), e.field)
        /\ ElemsEq(s, e, r.liveS)
        /\ OpsEq(s, e, r.liveS)
 
-FaithfulOne(s, e, r) == EqAt(s.liveS, e.path, r.liveS, e.opts.docstr)
+FaithfulOne(s, e, r) == EqAt(s.liveS, e.path, r.liveS, DM(e, FALSE))
 
 Faithful(s, e, r) == IF e.slice THEN FaithfulSlice(s, e, r) ELSE FaithfulOne(s, e, r)
 
@@ -329,9 +343,9 @@ CutClauses(s, o, e) ==
 
 (* ------------------------------------------------------------------------ *)
 (* C08.  "Structurally equal to the original" is read, as in C07, up to the    *)
-(* documented re-indentation of docstrings: a continuation line of a string in *)
-(* Expr-statement position may differ in its leading blanks (copy / own_src    *)
-(* dedent, put indents) and in nothing else.                                   *)
+(* documented re-indentation of docstrings (ReindentOf with rt = TRUE): a      *)
+(* continuation line of a string in Expr-statement position is unchanged,      *)
+(* dedented by the block indent, or dedented and indented again.               *)
 
 Sync(t) == t.srcOk /\ t.liveP = t.srcP
 
@@ -364,18 +378,18 @@ RoundTripClauses(s, e) ==
   ELSE { Cl("RoundTrip.putAccepted", e.outcome = "ok"),
          Cl("RoundTrip.root", e.rootOk /\ e.post.rootObj = s.rootObj) }
        \cup (IF e.outcome = "ok"
-             THEN { Cl("RoundTrip.struct", EqMod(s.liveS, e.post.liveS, "all")), Cl("RoundTrip.sync", Sync(e.post)) }
+             THEN { Cl("RoundTrip.struct", EqMod(s.liveS, e.post.liveS, RT(e, FALSE))), Cl("RoundTrip.sync", Sync(e.post)) }
              ELSE {})
 
 ReplaceClauses(s, e) ==
   { Cl("ReplaceBy.accepted", e.outcome = "ok"), Cl("ReplaceBy.root", e.rootOk /\ e.post.rootObj = s.rootObj) }
   \cup (IF e.outcome = "ok"
-        THEN { Cl("ReplaceBy.struct", EqMod(s.liveS, e.post.liveS, "all")), Cl("ReplaceBy.sync", Sync(s) => Sync(e.post)) }
+        THEN { Cl("ReplaceBy.struct", EqMod(s.liveS, e.post.liveS, RT(e, FALSE))), Cl("ReplaceBy.sync", Sync(s) => Sync(e.post)) }
         ELSE { Cl("ReplaceBy.atomic", e.post.liveP = s.liveP /\ e.post.text = s.text) })
 
 OwnSrcClauses(s, e) ==
   { Cl("OwnSrc.parses", e.own.alt \in 1..Len(EmbedOf(e.ekind))),
-    Cl("OwnSrc.struct", e.own.alt # 0 /\ EqAt(s.liveS, e.path, e.own.embS, e.opts.docstr)) }
+    Cl("OwnSrc.struct", e.own.alt # 0 /\ EqAt(s.liveS, e.path, e.own.embS, DM(e, FALSE))) }
   \cup Undisturbed(s, e)
 
 (* texts travel as TTab ids: sequences of lines, each a sequence of code points *)
@@ -387,7 +401,6 @@ PyWhite == (9..13) \cup (28..32) \cup {133, 160, 5760} \cup (8192..8202) \cup {8
 DocstrTextOK(t) == LET ls == TextOf(t) IN ls # <<>> /\ (ls[1] = <<>> \/ ls[1][1] \notin PyWhite)
 
 (* what the documented dedent does to one line of the stored value: drop min(indent, leading blanks) characters *)
-Min2(a, b) == IF a < b THEN a ELSE b
 DedentLine(line, n) == SubSeq(line, Min2(n, LeadBlanks(line)) + 1, Len(line))
 DedentText(ls, n) == [i \in 1..Len(ls) |-> DedentLine(ls[i], n)]
 
@@ -456,6 +469,9 @@ CutClass(s, o, e) ==
       ELSE IF LostInWindow(o, e) THEN "+window-comments" ELSE "")
   \o (IF EmptiesBlock(s, e) THEN "+emptied-block" ELSE "")
   \o "/" \o ParKind(s, e) \o "." \o CutField(e)
+
+(* a structural difference after a round trip that is nothing but leading blanks of docstring continuation lines *)
+IndentOnly(s, e) == IF EqMod(s.liveS, e.post.liveS, RT(e, TRUE)) THEN "+docstring-indent-only" ELSE ""
 
 BaseClass(s, e) == e.call \o "/" \o e.op \o "/" \o ParKind(s, e) \o "." \o CutField(e)
                      \o (IF e.slice THEN "[:]" ELSE "<" \o e.ekind \o ">")
